@@ -21,7 +21,7 @@ WellFormed(resp) ==
   /\ (resp.data = Null => resp.errors # <<>>)
 SameOutcome(a, b) == a.data = b.data /\ NulledPositions(a) = NulledPositions(b)
 
-RootKeys(c) == LET R == [schema |-> c.schema, doc |-> c.doc, vals |-> CoerceVars(c.doc.vardefs, c.vars, <<>>).vals, wd |-> {}, noIncr |-> FALSE]
+RootKeys(c) == LET R == [schema |-> c.schema, doc |-> c.doc, vals |-> CoerceVars(c.schema, c.doc.vardefs, c.vars, <<>>).vals, wd |-> {}, noIncr |-> FALSE]
                IN Keys(Collect(R, c.doc.sel, c.schema.query), {})
 Idx(keys, k) == IF \E j \in 1..Len(keys) : keys[j] = k THEN CHOOSE j \in 1..Len(keys) : keys[j] = k ELSE 0
 \* c.log: entries [r, e, at, rat] recorded when a resolver (at position rat) below root field r was invoked while a resolver / list
